@@ -659,7 +659,104 @@ def g_lts(rng):
     return f"lts {n} {es} {part} {rel} {out} {overload}"
 
 
+# ---------------------------------------------------------------- explicit tree automata: histories
+def rule_tok(r):
+    f, ks, p = r
+    return f"{f}:{','.join(map(str, ks))}>{p}"
+
+
+def rand_rule(rng, nstates=5, multi_arity=True):
+    if multi_arity:
+        f = rng.randrange(0, 4)
+        rk = rng.choice([0, 0, 1, 2, 2, 3])       # one symbol number at several arities
+    else:
+        f, rk = rng.choice([a for a in ALPHA if a[1] <= 2])   # ranked alphabet shared by all operands
+    return (f, tuple(rng.randrange(nstates) for _ in range(rk)), rng.randrange(nstates))
+
+
+def g_tah_store(rng):
+    """C12: the five mutators on one automaton interleaved with all read-only views"""
+    steps = ["new"]
+    added = []
+    for _ in range(rng.randint(4, 24)):
+        c = rng.random()
+        if c < 0.45:
+            r = rng.choice(added) if (added and rng.random() < 0.3) else rand_rule(rng)
+            added.append(r)
+            steps.append(("add!0!" if rng.random() < 0.7 else "addt!0!") + rule_tok(r))
+        elif c < 0.58:
+            steps.append(f"final!0!{rng.randrange(0, 7)}")
+        elif c < 0.66:
+            steps.append("finals!0!" + ",".join(str(rng.randrange(0, 7)) for _ in range(rng.randint(1, 3))))
+        elif c < 0.72:
+            steps.append("erasefinal!0")
+        elif c < 0.80:
+            steps.append("clear!0")
+        else:
+            probes = [rng.choice(added) for _ in range(min(len(added), 2))] + [rand_rule(rng) for _ in range(2)]
+            if added:
+                f, ks, p = rng.choice(added)
+                probes.append((f, ks, (p + 1) % 6))                       # near miss: other parent
+                probes.append((f, ks + (0,), p))                          # near miss: other arity
+            steps.append("probe!0!" + ";".join(rule_tok(r) for r in probes) + "!" + ",".join(str(q) for q in range(0, 7)))
+    return "tah " + " ".join(steps)
+
+
+def g_tah_hist(rng):
+    """C11: copy / assign / move / mutate / clear / destroy / derive over several live automata sharing storage"""
+    A = rand_ta(rng, nmax=4, dense=True)
+    steps = ["def!" + A.tok()]
+    if rng.random() < 0.5:
+        steps.append("def!" + rand_ta(rng, nmax=3, dense=True).tok())
+    else:
+        steps.append("new")
+    live = [0, 1]
+    n = 2
+    for _ in range(rng.randint(5, 18)):
+        if not live:
+            break
+        c = rng.random()
+        i = rng.choice(live)
+        j = rng.choice(live)
+        if c < 0.14:
+            steps.append(rng.choice(["copy", "copy", "copy", "copynt", "copynf"]) + f"!{i}")
+            live.append(n); n += 1
+        elif c < 0.22:
+            steps.append(f"assign!{i}!{j}" if i != j or rng.random() < 0.5 else f"selfassign!{i}")
+        elif c < 0.26:
+            steps.append(f"move!{i}")
+            live.remove(i); live.append(n); n += 1
+        elif c < 0.29 and i != j:
+            steps.append(f"moveassign!{i}!{j}")
+            live.remove(j)
+        elif c < 0.52:
+            steps.append(f"add!{i}!" + rule_tok(rand_rule(rng, multi_arity=False)))
+        elif c < 0.60:
+            steps.append(f"final!{i}!{rng.randrange(0, 6)}")
+        elif c < 0.64:
+            steps.append(f"erasefinal!{i}")
+        elif c < 0.69:
+            steps.append(f"clear!{i}")
+        elif c < 0.75 and len(live) > 1:
+            steps.append(f"kill!{i}")
+            live.remove(i)
+        elif c < 0.93:
+            op = rng.choice(["unreach", "unreach", "useless", "useless", "cand", "reduce", "union", "isect", "isectbu", "reindex"])
+            if op in ("union", "isect", "isectbu"):
+                steps.append(f"{op}!{i}!{j}")
+            elif op == "reindex":
+                steps.append(f"reindex!{i}!" + map_tok({q: rng.randrange(0, 8) for q in range(0, 12)}))
+            else:
+                steps.append(f"{op}!{i}")
+            live.append(n); n += 1
+        else:
+            if i != j:
+                steps.append(f"reindexinto!{i}!{j}!" + map_tok({q: rng.randrange(0, 8) for q in range(0, 12)}))
+    return "tah " + " ".join(steps)
+
+
 GENERATORS = {
+    "tah_store": g_tah_store, "tah_hist": g_tah_hist,
     "lts": g_lts,
     "nfah_incl": g_nfah_incl, "nfah_ops": g_nfah_ops, "nfah_hist": g_nfah_hist,
     "incl": g_incl, "inclall": g_inclall, "union": g_union, "unionpre": g_unionpre, "uniondisj": g_uniondisj,
